@@ -292,6 +292,8 @@ class World:
         self.sandbox: Path | None = None
         self._build_fs()
         self.call_hook = None
+        self.last_request = None
+        self.reuse_last_request = False
         self.scribbled_pdus = 0
         self._build_handlers()
         self.tid: TransactionId | None = None
@@ -483,7 +485,10 @@ class World:
         return PutRequest(self.dst_id, self.src_path, self.dst_req_path, mode, closure, msgs_to_user=msgs, **kw)
 
     def put(self) -> bool:
-        return self.S.put(self.put_request())
+        # (reuse_last_request: the user hands the very same PutRequest object in again)
+        req = self.last_request if (self.reuse_last_request and self.last_request is not None) else self.put_request()
+        self.last_request = req
+        return self.S.put(req)
 
     def put_to_third(self) -> bool:
         """A valid request towards the third entity (see _build_handlers); refused (False) while the sender is busy."""
